@@ -215,7 +215,13 @@ Fixed ==
     [s |-> "example.com/ns/name/sys", e |-> "accept"], [s |-> "example.com/ns/name/sys//sub", e |-> "accept"],
     [s |-> "EXAMPLE.com/ns/name/sys", e |-> "any"], [s |-> "hashicorp/subnets/cidr//sub/../x", e |-> "reject"],
     [s |-> "hashicorp/subnets/cidr//.", e |-> "reject"], [s |-> "a/b", e |-> "reject"], [s |-> "", e |-> "reject"], [s |-> " ./a", e |-> "reject"],
-    [s |-> "./a ", e |-> "reject"], [s |-> "./a:b", e |-> "reject"], [s |-> "./a\\b", e |-> "reject"] }
+    [s |-> "./a ", e |-> "reject"], [s |-> "./a:b", e |-> "reject"], [s |-> "./a\\b", e |-> "reject"],
+    [s |-> "example.com/foo/bar?next=https://example.net/", e |-> "any"], [s |-> "hashicorp/consul/aws?src=git://x", e |-> "any"],
+    [s |-> "a?://", e |-> "any"], [s |-> "?", e |-> "any"], [s |-> "//", e |-> "any"], [s |-> "::", e |-> "any"], [s |-> "git::", e |-> "any"],
+    [s |-> "git::https://", e |-> "any"], [s |-> "https://example.com/x.tgz//", e |-> "any"], [s |-> "https://example.com//x.tgz", e |-> "any"],
+    [s |-> "@", e |-> "any"], [s |-> "a@b", e |-> "any"], [s |-> "github.com/", e |-> "any"], [s |-> "github.com//", e |-> "any"],
+    [s |-> "https://example.com/x.tgz?%zz", e |-> "any"], [s |-> "https://[::1/x.tgz", e |-> "any"], [s |-> "https://example.com/x.tgz#", e |-> "any"],
+    [s |-> "../", e |-> "any"], [s |-> ".//", e |-> "any"], [s |-> "./.", e |-> "reject"], [s |-> "hashicorp/subnets/cidr//", e |-> "any"] }
 FixedFinal ==
   { [s |-> "example.com/ns/name/sys@1.2.3", e |-> "accept"], [s |-> "example.com/ns/name/sys@1.2.3//sub", e |-> "accept"],
     [s |-> "hashicorp/subnets/cidr@1.0.0-beta.1", e |-> "accept"], [s |-> "example.com/ns/name/sys@1.x", e |-> "reject"],
